@@ -26,6 +26,8 @@ structure Quirks where
   dimacsSingleClause : Bool := false
   /-- `to_bqm`: `_ret = <symbol>` takes the `AndConst` branch -/
   retSymbolAndConst : Bool := false
+  /-- `apply_cse` puts the extracted definitions in front of a list whose right-hand sides read names the list binds -/
+  cseHoistsOverBindings : Bool := false
   deriving Repr, DecidableEq, Inhabited
 
 def Quirks.none : Quirks := {}
@@ -39,6 +41,7 @@ def Quirks.ofList (l : List String) : Quirks :=
     repeatZero := l.contains "repeatZero"
     identityGateRaises := l.contains "identityGateRaises"
     dimacsSingleClause := l.contains "dimacsSingleClause"
-    retSymbolAndConst := l.contains "retSymbolAndConst" }
+    retSymbolAndConst := l.contains "retSymbolAndConst"
+    cseHoistsOverBindings := l.contains "cseHoistsOverBindings" }
 
 end QV
